@@ -34,7 +34,7 @@ LEGAL_PREFIXES = ['', 'r', 'R', 'u', 'U']
 
 def run(ctx):
     for fn in (r1_failed_line_offset, r1_failed_lineno, r1_google_body_line, r1_freeform_regroup, r1_slice_example,
-               r1_overwrite_lineno, r1_docstring_start, r2_first_frame, r3_docstring_prefixes, r3b_trailing_comment_pattern, r3_def_line_pattern, r4_freeform_offset, r5_exec_lines_are_physical_lines):
+               r1_overwrite_lineno, r1_docstring_start, r2_first_frame, r3_docstring_prefixes, r3b_trailing_comment_pattern, r3_def_line_pattern, r4_freeform_offset, r5_exec_lines_are_physical_lines, r6_zero_is_a_line_offset, r7_compile_error_line):
         ctx.rep.rule(fn, ctx)
 
 
@@ -698,6 +698,68 @@ def r3b_trailing_comment_pattern(ctx):
     rep.floor('C08.R3b', 'trailing-comment substitutions in the docstring locators', n, 2)
 
 
+def r6_zero_is_a_line_offset(ctx):
+    """NONE-VS-FALSY: failed_line_offset() / failed_lineno() return None for "no failure" and an integer otherwise, and 0 is a legitimate value
+    (a failure on the very first line of the doctest).  A truth test of such a value treats line 0 as "no line": the report loses its location."""
+    rep = ctx.rep
+    n = 0
+    for func in ctx.prog.funcs.values():
+        if func.module.name not in ('xdoctest.doctest_example', 'xdoctest.plugin', 'xdoctest.runner'):
+            continue
+        holders = {}
+        for x in walk_scope(func.node):
+            if isinstance(x, ast.Assign) and len(x.targets) == 1 and isinstance(x.targets[0], ast.Name) and isinstance(x.value, ast.Call) and isinstance(x.value.func, ast.Attribute) \
+                    and x.value.func.attr in ('failed_line_offset', 'failed_lineno') and not x.value.args:
+                holders[x.targets[0].id] = x.value.func.attr
+        if not holders:
+            continue
+        for x in walk_scope(func.node):
+            tests = []
+            if isinstance(x, (ast.If, ast.While, ast.IfExp)):
+                tests = [x.test]
+            elif isinstance(x, ast.BoolOp):
+                tests = list(x.values)
+            elif isinstance(x, ast.UnaryOp) and isinstance(x.op, ast.Not):
+                tests = [x.operand]
+            for t in tests:
+                while isinstance(t, ast.UnaryOp) and isinstance(t.op, ast.Not):
+                    t = t.operand
+                if isinstance(t, ast.Name) and t.id in holders:
+                    rep.ob('C08.R6', ctx.loc(func, t), 'truth test of `%s` (= %s())' % (t.id, holders[t.id]), False,
+                           '`%s` is tested for truth, but 0 is a valid value of %s(): a failure on the first line of the doctest is handled as "no failing line" '
+                           '(failed_lineno() returns None / the report drops its `File ..., line N` row)' % (t.id, holders[t.id]), anchor=func.qualname)
+        for nm, what in sorted(holders.items()):
+            n += 1
+            cmps = [c for c in walk_scope(func.node) if isinstance(c, ast.Compare) and is_name(c.left, nm) and len(c.ops) == 1 and isinstance(c.ops[0], (ast.Is, ast.IsNot))]
+            rep.ob('C08.R6', ctx.loc(func, func.node), '`%s` = %s() in %s' % (nm, what, func.name), True,
+                   'never tested for truth (%d `is None` comparisons)' % len(cmps), nontrivial=False, anchor=func.qualname)
+    rep.floor('C08.R6', 'locals holding a failing line / offset', n, 4)
+
+
+def r7_compile_error_line(ctx):
+    """the failing line of a compile-time failure is the `lineno` attribute of the SyntaxError (its `offset` is the COLUMN)"""
+    rr = run_roles(ctx)
+    rep = ctx.rep
+    f = rr.f
+    sites = []
+    for n in rr.g.nodes:
+        if n.kind != 'stmt' or n.dup or not isinstance(n.ast, ast.Assign):
+            continue
+        if not any(field_name(t, 'self') == 'self.failed_tb_lineno' for t in n.ast.targets):
+            continue
+        for c in ast.walk(n.ast.value):
+            if isinstance(c, ast.Call) and is_name(c.func, 'getattr') and len(c.args) >= 2 and isinstance(c.args[1], ast.Constant):
+                sites.append((n, c, c.args[1].value))
+            elif isinstance(c, ast.Attribute) and c.attr in ('lineno', 'offset', 'end_lineno', 'end_offset') and isinstance(c.value, ast.Name):
+                sites.append((n, c, c.attr))
+    rep.floor('C08.R7', 'failing line taken from an exception attribute', len(sites), 1)
+    for (n, c, attr) in sites:
+        ok = attr == 'lineno'
+        rep.ob('C08.R7', ctx.loc(f, c), ctx.src(c), ok,
+               'the line of the part the compiler rejected' if ok else
+               'the failing line of a compile-time error is read from `.%s`, which is not the line (offset is the column): the report points at a wrong line' % attr, anchor=RUN)
+
+
 # ---------------------------------------------------------------------------
 from ..selftest import fire, silent      # noqa: E402
 
@@ -706,6 +768,8 @@ SA = 'xdoctest/static_analysis.py'
 CO = 'xdoctest/core.py'
 PA = 'xdoctest/parser.py'
 VARIANTS = [
+    fire('first-line-failure-has-no-line', 'C08.R6', (DE, "        offset = self.failed_line_offset()\n        if offset is None:\n", "        offset = self.failed_line_offset()\n        if not offset:\n")),
+    fire('compile-error-column-taken-for-line', 'C08.R7', (DE, "getattr(ex_value, 'lineno', None) or 1", "getattr(ex_value, 'offset', None) or 1")),
     fire('trailing-comment-needs-a-blank', 'C08.R3b', ('xdoctest/static_analysis.py', "            pattern = re.escape(trip) + r'\\s*#.*$'\n", "            pattern = re.escape(trip) + r'\\s+#.*$'\n")),
     fire('single-mode-terminator-stored-in-exec-lines', 'C08.R5', ('xdoctest/parser.py', "        example = slice_example(s1, s2, want_lines)\n", "        example = slice_example(s1, s2, want_lines)\n        if mode_hint == 'single':\n            example.exec_lines = example.exec_lines + ['']\n")),
     fire('line-from-frame-f_lineno', 'C08.R2', ('xdoctest/doctest_example.py', "                            found_lineno = sub_tb.tb_lineno\n", "                            found_lineno = sub_tb.tb_frame.f_lineno\n")),
